@@ -263,27 +263,32 @@ func c19Run(c *core.Ctx) *c19run {
 	// units: the functions invoked from run's own body (a closure bound to a local variable, or
 	// a same-package function / method) below which the callback is called
 	litOf := map[types.Object]*ast.FuncLit{}
-	c19inspect(f.Body, func(n ast.Node) bool {
-		switch s := n.(type) {
-		case *ast.AssignStmt:
-			if len(s.Lhs) == len(s.Rhs) {
-				for i, rhs := range s.Rhs {
-					if lit, ok := ast.Unparen(rhs).(*ast.FuncLit); ok {
-						if o := c19obj(f, s.Lhs[i]); o != nil {
-							litOf[o] = lit
+	litEncl := map[types.Object]*flow.Func{}
+	for _, g := range r.funcs {
+		g := g
+		c19inspect(g.Body, func(n ast.Node) bool {
+			switch s := n.(type) {
+			case *ast.AssignStmt:
+				if len(s.Lhs) == len(s.Rhs) {
+					for i, rhs := range s.Rhs {
+						if lit, ok := ast.Unparen(rhs).(*ast.FuncLit); ok {
+							if o := c19obj(g, s.Lhs[i]); o != nil {
+								litOf[o], litEncl[o] = lit, g
+							}
 						}
 					}
 				}
-			}
-		case *ast.ValueSpec:
-			for i, rhs := range s.Values {
-				if lit, ok := ast.Unparen(rhs).(*ast.FuncLit); ok && i < len(s.Names) {
-					litOf[f.Info.Defs[s.Names[i]]] = lit
+			case *ast.ValueSpec:
+				for i, rhs := range s.Values {
+					if lit, ok := ast.Unparen(rhs).(*ast.FuncLit); ok && i < len(s.Names) {
+						o := g.Info.Defs[s.Names[i]]
+						litOf[o], litEncl[o] = lit, g
+					}
 				}
 			}
-		}
-		return true
-	})
+			return true
+		})
+	}
 	// candidates: closures of run bound to a local, and the same-package functions below run; a
 	// candidate below which the callback is called is a unit unless it is itself code of another
 	// such candidate (a helper of the unit). Being invoked from run's own body is not required:
@@ -319,8 +324,8 @@ func c19Run(c *core.Ctx) *c19run {
 	}
 	sort.Slice(litVars, func(i, j int) bool { return litVars[i].Pos() < litVars[j].Pos() })
 	for _, o := range litVars {
-		lit := litOf[o]
-		addCand(&c19unit{lit: lit, f: f.Lit(lit), body: lit, v: o, name: r.cons + "$" + o.Name()})
+		lit, g := litOf[o], litEncl[o]
+		addCand(&c19unit{lit: lit, f: g.Lit(lit), body: lit, v: o, encl: g, name: declName(g.Pkg, g.Node.(*ast.FuncDecl)) + "$" + o.Name()})
 	}
 	for _, g := range r.funcs[1:] {
 		hfd, ok := g.Node.(*ast.FuncDecl)
@@ -331,6 +336,14 @@ func c19Run(c *core.Ctx) *c19run {
 	}
 	for _, cd := range cands {
 		nested := false
+		if cd.u.decl != nil {
+			// a function that merely contains the delivering closure (setup + loop) is not the unit
+			for _, other := range cands {
+				if other.u.lit != nil && contains(cd.u.decl.Body, other.u.lit) {
+					nested = true
+				}
+			}
+		}
 		for _, other := range cands {
 			if other != cd && other.bodies[cd.u.f.Body] && !cd.bodies[other.u.f.Body] {
 				nested = true
@@ -470,7 +483,10 @@ func (r *c19run) fromRunParam(g *flow.Func, e ast.Expr, param *types.Var, depth 
 		}
 		return ok && stores > 0
 	}
-	// a parameter of helper g?
+	// a parameter of a helper (possibly captured by the closure the expression sits in)?
+	if owner := r.funcAt(v.Pos()); owner != nil {
+		g = owner
+	}
 	gfd, isDecl := g.Node.(*ast.FuncDecl)
 	if !isDecl || g == r.f {
 		return false
@@ -630,6 +646,12 @@ func c19Unit(c *core.Ctx, r *c19run, u *c19unit) {
 				return true
 			}
 		}
+		// a variable or parameter of the function enclosing the closure, declared outside it
+		if u.lit != nil && u.encl != nil && isSnap(o) {
+			if v, ok := o.(*types.Var); ok && !v.IsField() && contains(u.encl.Node, c19posNode(o.Pos())) && !contains(u.lit, c19posNode(o.Pos())) {
+				return true
+			}
+		}
 		return false
 	}
 	lastSet := map[types.Object]bool{}
@@ -659,6 +681,61 @@ func c19Unit(c *core.Ctx, r *c19run, u *c19unit) {
 		c.Violate("R-C19-1", u.name+"|send only when the snapshot differs from the last one", pos(c, u.sends[0]),
 			"no variable or field outliving one pull remembers the last delivered snapshot: every pull (every tick, every watch event) delivers again, consecutive snapshots are equal")
 		return
+	}
+	ok, why, decided := r.lifetime(lastObj, 0)
+	if ok && decided {
+		// nothing but the unit writes it: a reset elsewhere (e.g. when the watcher is re-created)
+		// forgets the last delivery just as well
+		inUnitCode := func(n ast.Node) bool {
+			for i, g := range F {
+				var root ast.Node = g.Body
+				if i == 0 {
+					root = u.body
+				}
+				if contains(root, n) {
+					return true
+				}
+			}
+			return false
+		}
+		for _, g := range r.funcs {
+			ast.Inspect(g.Body, func(n ast.Node) bool {
+				as, isAs := n.(*ast.AssignStmt)
+				if !isAs || !ok || inUnitCode(as) {
+					return true
+				}
+				for i, l := range as.Lhs {
+					if c19cellOf(g, l) != lastObj || g.Info.Defs[c19identOf(l)] == lastObj {
+						continue
+					}
+					// handed through a helper and back: `last, x = h(.., last)`
+					j := i
+					if len(as.Rhs) == 1 {
+						j = 0
+					}
+					if call, isCall := ast.Unparen(as.Rhs[j]).(*ast.CallExpr); isCall {
+						back := false
+						for _, a := range call.Args {
+							if c19cellOf(g, a) == lastObj {
+								back = true
+							}
+						}
+						if back {
+							continue
+						}
+					}
+					ok, why = false, "it is overwritten outside the pull-compare-send code at "+g.Pos(as.Pos())+" (a reset, e.g. when the watcher is re-created)"
+				}
+				return true
+			})
+		}
+	}
+	if !decided {
+		c.Undecide("R-C19-1", u.name+"|last snapshot outlives the whole sync loop", pos(c, u.body), why)
+	} else {
+		c.Check(ok, "R-C19-1", u.name+"|last snapshot outlives the whole sync loop", pos(c, u.body),
+			"the memory of the last delivered snapshot is created once per run: outside every loop, and handed through helpers and back",
+			"the memory of the last delivered snapshot does not outlive the sync loop: "+why+" — after every such iteration (e.g. every watcher restart) the comparison starts from an empty `last` again and the unchanged content is delivered once more: consecutive snapshots are equal")
 	}
 	// What a snapshot cell holds: True = the snapshot just pulled, False = the previously
 	// delivered snapshot, unknown = something else. `last` holds the previous one until written.
@@ -1005,4 +1082,176 @@ func c19Unit(c *core.Ctx, r *c19run, u *c19unit) {
 		"a path detects a changed snapshot (or overwrites `last`) without delivering it: that content is never delivered unless the store changes again — no convergence to the final state", witness(swallowed)...)
 	c.Check(twice == nil, "R-C19-1", u.name+"|one delivery per pull", pos(c, u.body),
 		"no path delivers twice", "a path delivers the same pull twice: consecutive snapshots are equal", witness(twice)...)
+}
+
+func c19identOf(e ast.Expr) *ast.Ident {
+	id, _ := ast.Unparen(e).(*ast.Ident)
+	return id
+}
+
+// c19posNode is a zero-width node at a position (for contains).
+type c19posNode token.Pos
+
+func (p c19posNode) Pos() token.Pos { return token.Pos(p) }
+func (p c19posNode) End() token.Pos { return token.Pos(p) }
+
+// funcAt returns the function of run's reach whose declaration spans pos.
+func (r *c19run) funcAt(p token.Pos) *flow.Func {
+	for _, g := range r.funcs {
+		if contains(g.Node, c19posNode(p)) {
+			return g
+		}
+	}
+	return nil
+}
+
+// onceSite: the node (a declaration, a struct literal, a call) in function h is evaluated once per
+// run: it is not inside a loop, and neither is any call on the chain from run to h.
+func (r *c19run) onceSite(h *flow.Func, n ast.Node, depth int) (ok bool, why string) {
+	if h == nil || depth > 4 {
+		return true, ""
+	}
+	pm := r.pms[h]
+	for p := pm[n]; p != nil; p = pm[p] {
+		switch p.(type) {
+		case *ast.ForStmt, *ast.RangeStmt:
+			return false, "it is (re-)created at " + h.Pos(n.Pos()) + " inside the loop at " + h.Pos(p.Pos())
+		}
+	}
+	if h == r.f {
+		return true, ""
+	}
+	hfd, isDecl := h.Node.(*ast.FuncDecl)
+	if !isDecl {
+		return true, ""
+	}
+	hobj := h.Info.Defs[hfd.Name]
+	for _, g := range r.funcs {
+		for _, call := range calls(g.Body, true) {
+			if g.Callee(call) != hobj {
+				continue
+			}
+			if ok, why := r.onceSite(g, call, depth+1); !ok {
+				return false, "it lives in " + hfd.Name.Name + ", and " + hfd.Name.Name + " is called again and again: " + why
+			}
+		}
+	}
+	return true, ""
+}
+
+// lifetime decides whether the cell that remembers the last delivered snapshot is created once
+// per run. decided=false: the shape cannot be followed.
+func (r *c19run) lifetime(cell types.Object, depth int) (ok bool, why string, decided bool) {
+	v, isVar := cell.(*types.Var)
+	if !isVar || depth > 3 {
+		return true, "cannot follow the variable that remembers the last snapshot", false
+	}
+	if v.IsField() {
+		// every place where the struct holding it is built
+		for _, h := range r.funcs {
+			bad := ""
+			ast.Inspect(h.Body, func(n ast.Node) bool {
+				cl, isLit := n.(*ast.CompositeLit)
+				if !isLit || bad != "" {
+					return true
+				}
+				t := h.Info.TypeOf(cl)
+				if t == nil {
+					return true
+				}
+				if st, isStruct := t.Underlying().(*types.Struct); isStruct {
+					for i := 0; i < st.NumFields(); i++ {
+						if st.Field(i) == v {
+							if ok, w := r.onceSite(h, cl, 0); !ok {
+								bad = "the struct holding it: " + w
+							}
+						}
+					}
+				}
+				return true
+			})
+			if bad != "" {
+				return false, bad, true
+			}
+		}
+		return true, "", true
+	}
+	g := r.funcAt(v.Pos())
+	if g == nil {
+		return true, "the variable that remembers the last snapshot is declared outside run's reach", false
+	}
+	if !c19isParamVar(g, v) {
+		id := c19defIdent(g, g.Node, v)
+		if id == nil {
+			return true, "cannot find the declaration of the variable that remembers the last snapshot", false
+		}
+		if ok, why := r.onceSite(g, id, 0); !ok {
+			return false, why, true
+		}
+		return true, "", true
+	}
+	// a parameter of helper g: every caller passes a cell that lives long enough and gets the
+	// updated snapshot back
+	gfd, isDecl := g.Node.(*ast.FuncDecl)
+	if !isDecl || g == r.f {
+		return true, "", true
+	}
+	idx := -1
+	ps := c19params(g, gfd.Type)
+	for i, p := range ps {
+		if p == v {
+			idx = i
+		}
+	}
+	if idx < 0 {
+		return true, "", true // receiver or named result
+	}
+	// result position at which g returns the parameter on every return
+	ret := -1
+	okRet := true
+	c19inspect(gfd.Body, func(n ast.Node) bool {
+		rs, isRet := n.(*ast.ReturnStmt)
+		if !isRet {
+			return true
+		}
+		j := -1
+		for k, e := range rs.Results {
+			if c19obj(g, e) == cell {
+				j = k
+			}
+		}
+		if j < 0 || (ret >= 0 && ret != j) {
+			okRet = false
+		}
+		ret = j
+		return true
+	})
+	gobj := g.Info.Defs[gfd.Name]
+	nCalls := 0
+	for _, h := range r.funcs {
+		pm := r.pms[h]
+		for _, call := range calls(h.Body, true) {
+			if h.Callee(call) != gobj || idx >= len(call.Args) {
+				continue
+			}
+			nCalls++
+			arg := c19cellOf(h, call.Args[idx])
+			if arg == nil {
+				return true, "the last snapshot is handed to " + gfd.Name.Name + " as an expression that is not a variable or field", false
+			}
+			if ok, why, dec := r.lifetime(arg, depth+1); !dec || !ok {
+				return ok, why, dec
+			}
+			back := false
+			if okRet && ret >= 0 {
+				if as, isAs := pm[call].(*ast.AssignStmt); isAs && len(as.Rhs) == 1 && ret < len(as.Lhs) && c19cellOf(h, as.Lhs[ret]) == arg {
+					back = true
+				}
+			}
+			if !back {
+				return false, "it is the parameter `" + v.Name() + "` of " + gfd.Name.Name + ", and the snapshot recorded there is not handed back into the caller's variable (" + h.Pos(call.Pos()) + ")", true
+			}
+		}
+	}
+	return true, "", nCalls > 0
 }
